@@ -191,6 +191,7 @@ type Obs struct {
 	Final   []Pair             `json:"final"`
 	Seq     []Pair             `json:"seq"` // the Jobs = 1 result on the same input (warm-up run)
 	Logs    map[string][]Event `json:"logs"`
+	HasLogs bool               `json:"haslogs"`
 	Timeout bool               `json:"timeout"` // Compare did not return
 	Panic   string             `json:"panic"`
 	Cfg     Config             `json:"cfg"`
@@ -313,7 +314,11 @@ func Run(r io.Reader, w io.Writer, seed int64, perCfg int) error {
 			runtime.GOMAXPROCS(gm)
 			s := rng.Int63()
 			final, logs, to, pm := compareOnce(c, jobs, s, k > 0)
-			enc.Encode(Obs{I: in, Jobs: jobs, GoMax: gm, Seed: s, Final: final, Seq: seq, Logs: logs, Timeout: to, Panic: pm, Cfg: c})
+			has := len(logs) > 0
+			if !has {
+				logs = map[string][]Event{"none:0": {}} // the Json module of TLC needs a non-empty object
+			}
+			enc.Encode(Obs{I: in, Jobs: jobs, GoMax: gm, Seed: s, Final: final, Seq: seq, Logs: logs, HasLogs: has, Timeout: to, Panic: pm, Cfg: c})
 			if to {
 				bw.Flush()
 				return nil // a hung Compare cannot be stopped: the runner reports it
